@@ -273,8 +273,9 @@ func Config(t *rapid.T, f *ir.File, l *ir.Layout, o KOpts) *ir.Config {
 }
 
 // listLens: lengths of validator / plan-modifier lists. Mostly one to three entries, now and then a long list (code that
-// treats long lists differently - de-duplication through a map, chunking - only shows with more than a handful).
-var listLens = []int{1, 1, 1, 2, 2, 2, 3, 3, 1, 2, 3, 9, 12, 17}
+// treats long lists differently - de-duplication through a map, chunking - only shows with more than a handful) or an
+// explicitly empty one (`key: []` is an entry: it overrides the Message.Field entry and the UseStateForUnknown default).
+var listLens = []int{1, 1, 1, 2, 2, 2, 3, 3, 1, 2, 3, 9, 12, 17, 0, 0}
 
 // FieldOptions draws the field-addressed options into c.
 func FieldOptions(t *rapid.T, f *ir.File, c *ir.Config, o KOpts) {
@@ -384,7 +385,15 @@ func FieldOptions(t *rapid.T, f *ir.File, c *ir.Config, o KOpts) {
 				}
 				l = append(l, fmt.Sprintf("%s.V(%d)", SupportPath, rapid.IntRange(1, 9+n).Draw(t, "vid")))
 			}
-			c.Validators[key(oc, "valkey")] = l
+			if l == nil {
+				l = []string{}
+			}
+			vk := key(oc, "valkey")
+			c.Validators[vk] = l
+			if len(l) == 0 && vk != oc.TypeKey && rapid.Bool().Draw(t, "valboth") {
+				// an empty path-form entry over a non-empty Message.Field entry: the path form wins
+				c.Validators[oc.TypeKey] = []string{fmt.Sprintf("%s.V(%d)", SupportPath, 30+i%9)}
+			}
 		}
 		if !taken(listMap(c.PlanModifiers), oc) && rapid.IntRange(0, p).Draw(t, fmt.Sprintf("pm%d", i)) == 0 {
 			n := rapid.SampledFrom(listLens).Draw(t, "npm")
@@ -400,7 +409,14 @@ func FieldOptions(t *rapid.T, f *ir.File, c *ir.Config, o KOpts) {
 					l = append(l, fmt.Sprintf("%s.PM(%d)", SupportPath, rapid.IntRange(1, 9+n).Draw(t, "pmid")))
 				}
 			}
-			c.PlanModifiers[key(oc, "pmkey")] = l
+			if l == nil {
+				l = []string{}
+			}
+			pk := key(oc, "pmkey")
+			c.PlanModifiers[pk] = l
+			if len(l) == 0 && pk != oc.TypeKey && rapid.Bool().Draw(t, "pmboth") {
+				c.PlanModifiers[oc.TypeKey] = []string{fmt.Sprintf("%s.PM(%d)", SupportPath, 30+i%9)}
+			}
 		}
 	}
 	// custom types via configuration (full path only; singular, repeated or a map of scalars; not oneof/embedded)
